@@ -1956,6 +1956,16 @@ func (ls *LState) Status(th *LState) string {
 }
 
 func (ls *LState) Resume(th *LState, fn *LFunction, args ...LValue) (ResumeState, error, []LValue) {
+	// refuse before anything is pushed: a refused Resume must leave the thread's call stack alone
+	if ls.G.CurrentThread == th {
+		return ResumeError, newApiErrorS(ApiErrorRun, "can not resume a running thread"), nil
+	}
+	if th.Dead {
+		return ResumeError, newApiErrorS(ApiErrorRun, "can not resume a dead thread"), nil
+	}
+	if th.Parent != nil {
+		return ResumeError, newApiErrorS(ApiErrorRun, "can not resume a normal thread"), nil
+	}
 	isstarted := th.isStarted()
 	if !isstarted {
 		base := 0
@@ -1972,15 +1982,6 @@ func (ls *LState) Resume(th *LState, fn *LFunction, args ...LValue) (ResumeState
 		})
 	}
 
-	if ls.G.CurrentThread == th {
-		return ResumeError, newApiErrorS(ApiErrorRun, "can not resume a running thread"), nil
-	}
-	if th.Dead {
-		return ResumeError, newApiErrorS(ApiErrorRun, "can not resume a dead thread"), nil
-	}
-	if th.Parent != nil {
-		return ResumeError, newApiErrorS(ApiErrorRun, "can not resume a normal thread"), nil
-	}
 	th.Parent = ls
 	ls.G.CurrentThread = th
 	if !isstarted {
